@@ -7,7 +7,7 @@ s="/verif/seeded/$seed"
 [ -f "$s/patch.diff" ] || { echo "no such seed $seed"; exit 2; }
 props="$@"; [ -z "$props" ] && props=$(python3 -c "import json;print(json.load(open('$s/meta.json'))['property'])")
 w="/var/tmp/st_${seed}_$$"; mkdir -p "$w"
-cp -r /repo "$w/repo" && rsync -a --exclude .git /verif/ "$w/verif/"
+cp -r /repo "$w/repo" && rsync -a --exclude .git "${VERIF_SRC:-/verif}/" "$w/verif/"
 ( cd "$w/repo" && git apply "$s/patch.diff" ) || { echo "$seed: patch does not apply"; rm -rf "$w"; exit 2; }
 for p in $props; do
   out=$( cd "$w/verif" && WSI_REPO="$w/repo" timeout 3000 ./check $p 2>&1 | grep -v "more backflow\|conda" | tail -4 )
